@@ -1,5 +1,5 @@
 (* Model of the integer-register optimisation of /repo (property C05), as repaired by the fix
-   commits ce974bc 53bcb24 914e8ba 9eb932a (and f881ef4, 8c21b75 of other properties).
+   commits ce974bc 53bcb24 914e8ba 9eb932a 939db5a 3c1869d (and f881ef4, 8c21b75 of other properties).
    Executable Gallina, no proofs here.
 
    Part 1  the body rewrite: eval.ModifyRegister as a callback of ast.Modify (Modify.v), the
@@ -53,13 +53,26 @@ Definition is_incdec (t : tok) : bool :=
      *ast.PostfixExpression on that name       -> nil,false   (x++ not handled)
      *ast.PrefixExpression ++/-- whose Right is this register (already rewritten: post-order)
                                                -> nil,false   (fix 9eb932a)
+     *ast.MapLiteral whose rewritten keys collide (len(Pairs) != len(Order)) -> nil,false
+     *ast.CallExpression whose Function is an identifier of that name          -> nil,false
      *ast.FunctionLiteral                      -> nil,false
      anything else (incl. other registers)     -> unchanged                                    *)
+(* len(in.Pairs) != len(in.Order) on a rewritten map literal: two keys are the same Go pointer,
+   i.e. both are this register (or both nil) *)
+Definition count_keys (p : option node -> bool) (l : list (option node * option node)) : nat :=
+  length (filter (fun kv => p (fst kv)) l).
+Definition is_none (o : option node) : bool := match o with None => true | Some _ => false end.
+Definition dup_keys (name : bytes) (l : list (option node * option node)) : bool :=
+  (2 <=? count_keys (fun k => match k with Some c => is_reg_of name c | None => false end) l)
+  || (2 <=? count_keys is_none l).
+
 Definition modify_register_cb (name : bytes) (n : node) : res node :=
   match n with
   | NIdent _ => if is_ident_of name n then ROk (reg_node name) else ROk n
   | NPostfix _ prev => if bytes_eqb (tlit prev) name then RBail else ROk n
   | NPrefix t (Some r) => if is_incdec t && is_reg_of name r then RBail else ROk n
+  | NMap _ l => if dup_keys name l then RBail else ROk n                     (* fix 3c1869d *)
+  | NCall _ (Some fn) _ => if is_ident_of name fn then RBail else ROk n      (* fix 939db5a *)
   | NFunc _ _ _ _ _ _ => RBail
   | _ => ROk n
   end.
@@ -154,7 +167,8 @@ Section Occurrences.
     match o with None => false | Some l => existsb (param_gives_up rec) l end.
 
   (* the documented bail-outs: a function literal, a postfix ++/-- on the name, a prefix ++/--
-     on the name, (and a macro literal with a parameter of that name), anywhere ast.Modify looks *)
+     on the name, the name in call position, a map literal with the name as key twice (and a
+     macro literal with a parameter of that name), anywhere ast.Modify looks *)
   Fixpoint bails (n : node) : bool :=
     match n with
     | NFunc _ _ _ _ _ _ => true
@@ -170,9 +184,12 @@ Section Occurrences.
     | NReturn _ v => fold_opt bails false v
     | NMacro _ ps b => any_params bails ps || fold_opt bails false b
     | NArray _ e => any_slice bails e
-    | NMap _ l => any_pairs bails l
+    | NMap _ l =>
+        any_pairs bails l
+        || dup_keys name (map (fun kv => (option_map subst_reg (fst kv), option_map subst_reg (snd kv))) l)
     | NBuiltin _ ps => any_slice bails ps
-    | NCall _ _ args => any_slice bails args
+    | NCall _ fn args =>
+        any_slice bails args || match fn with Some c => is_ident_of name c | None => false end
     | NIdent _ | NInt _ _ | NFloat _ _ | NString _ | NBool _ _ | NComment _ _ _ | NControl _ => false
     end.
 
